@@ -201,6 +201,9 @@ func mergeConfigDict(opts *options, to, from *Config) Error {
 		if err != nil {
 			return err
 		}
+		if mergedInPlace(old, merged) {
+			continue // old (and every handle to it) holds the merged contents
+		}
 
 		to.fields.set(k, merged.cpy(ctx))
 	}
@@ -311,6 +314,9 @@ func mergeConfigMergeArr(opts, elemOpts *options, to, from *Config) Error {
 		if err != nil {
 			return err
 		}
+		if mergedInPlace(old, merged) {
+			continue
+		}
 		to.fields.setAt(i, parent, merged.cpy(ctx))
 	}
 
@@ -342,6 +348,16 @@ func mergeConfigPrependArr(opts *options, to, from *Config) Error {
 func mergeConfigAppendArr(opts *options, to, from *Config) Error {
 	to.fields.append(cfgSub{to}, from.fields.array())
 	return nil
+}
+
+// mergedInPlace reports whether the outcome of mergeValues is the old
+// sub-configuration itself: the new settings have been merged into it, so it
+// stays where it is, and configurations obtained for it before (Child) stay
+// views of the setting.
+func mergedInPlace(old, merged value) bool {
+	o, isSub := old.(cfgSub)
+	m, ok := merged.(cfgSub)
+	return isSub && ok && o.c == m.c
 }
 
 func mergeValues(opts *options, old, v value) (value, Error) {
